@@ -24,6 +24,18 @@ def cid(t):
     elif isinstance(t, Call):
         if t.fn in ('str', 'six.text_type') and len(t.args) == 1 and not t.kwargs:
             r = cid(t.args[0])
+        elif t.fn in ('os.path.join', 'posixpath.join') and not t.kwargs and t.args:
+            # join is associative: join(join(a, b), c) is join(a, b, c)
+            parts = []
+            x = t
+            while isinstance(x, Call) and x.fn == t.fn and not x.kwargs and x.args:
+                parts[:0] = x.args[1:]
+                first = x.args[0]
+                while isinstance(first, Phi) and len(first.alts) == 1:
+                    first = first.alts[0][0]
+                x = first
+            parts[:0] = [x]
+            r = _id(('call', t.fn, tuple(cid(a) for a in parts), ()))
         else:
             r = _id(('call', t.fn, tuple(cid(a) for a in t.args),
                      tuple((k2, cid(v)) for k2, v in t.kwargs)))
@@ -149,11 +161,12 @@ def join_parts(t):
 
 
 def match_pbc(t):
-    """I when t = join(dirname(dirname(I)), 'files', basename(I)[:-len('.trashinfo')])."""
-    t = strip(t)
-    if not (is_call(t, *JOIN) and len(t.args) == 3):
+    """I when t = join(dirname(dirname(I)), 'files', basename(I)[:-len('.trashinfo')])
+    (however the join is nested)."""
+    parts = join_parts(t)
+    if parts is None or len(parts) != 3:
         return None
-    a, b, c = [strip(x) for x in t.args]
+    a, b, c = [strip(x) for x in parts]
     if not (isinstance(b, Const) and b.value == 'files'):
         return None
     if not (is_call(a, *DIRNAME) and is_call(strip(a.args[0]), *DIRNAME)):
@@ -178,22 +191,29 @@ def pbc_alts(t):
 def match_listing(t, leaf):
     """D when t = join(join(D, leaf), elem(listdir(join(D, leaf)))) -- an entry of
     the ``leaf`` ('info' / 'files') sub-directory of trash directory D, obtained
-    from listing that very directory."""
-    t = strip(t)
-    if not (is_call(t, *JOIN) and len(t.args) == 2):
+    from listing that very directory (however the joins are nested)."""
+    parts = join_parts(t)
+    if parts is None or len(parts) < 3:
         return None
-    d, e = strip(t.args[0]), strip(t.args[1])
+    e = strip(parts[-1])
     if not (isinstance(e, Elem)):
         return None
     lst = strip(e.container)
-    if not (is_call(lst, 'os.listdir') and len(lst.args) == 1 and same(lst.args[0], d)):
+    if not (is_call(lst, 'os.listdir') and len(lst.args) == 1):
         return None
-    if not (is_call(d, *JOIN) and len(d.args) == 2):
+    listed = join_parts(lst.args[0])
+    if listed is None or [cid(x) for x in listed] != [cid(x) for x in parts[:-1]]:
         return None
-    lf = strip(d.args[1])
+    lf = strip(parts[-2])
     if not (isinstance(lf, Const) and lf.value == leaf):
         return None
-    return d.args[0]
+    if len(parts) == 3:
+        return parts[0]
+    d = strip(t).args[0] if len(strip(t).args) == 2 else None
+    d = strip(d) if d is not None else None
+    if d is not None and is_call(d, *JOIN) and len(d.args) == 2:
+        return d.args[0]
+    return Call(JOIN[0], tuple(parts[:-2]), (), None)
 
 
 def info_entry(t):
